@@ -127,7 +127,7 @@ class Sched:
             # fairness: a thread that polls again and again without blocking (busy-wait on a try-lock) must let
             # the others run; this switch is not a pre-emption
             me.spins = getattr(me, "spins", 0) + 1
-            if me.spins > 2 and len(cands) > 1 and me in cands:
+            if me.spins > 6 and len(cands) > 1 and me in cands:
                 cands.remove(me)
                 forced = True
             elif me.spins > 40 and cands == [me]:
